@@ -408,6 +408,7 @@ func keyDeps(c *an.Ctx, rule, fnKey string, sources map[string]func(in ssa.Instr
 	} else {
 		c.Ok(rule, fnKey+" packing", fn.Pos(), "inputs are written to disjoint ranges of sufficient width")
 	}
+	sharedKeyPacking(c, rule, fnKey, 1)
 }
 
 func fieldLoad(typ, field string) func(in ssa.Instruction) ssa.Value {
